@@ -131,7 +131,9 @@ def c11_cases(chk, quick):
             rnd.shuffle(s)
             seqs.append(s)
         seqs.append(list(reversed(seq)))
-        cases.append(dict(m=rnd.choice([1, 2, 3, 5, 16, 64]), l=rnd.choice([1, 2, 3, 5]) if n >= 5 else 1, seqs=seqs))
+        # every block length the store accepts (l < 16), not only the small ones
+        cases.append(dict(m=rnd.choice([1, 2, 3, 5, 16, 64]), l=rnd.choice([x for x in (1, 2, 3, 4, 5, 6, 7, 8, 11, 15) if x <= n]) if n >= 5 else 1,
+                          seqs=seqs))
     # hasher / element-label variety: the crate's identity hasher with small consecutive integers
     for i, c in enumerate(cases):
         if i % 4 == 1:
